@@ -223,7 +223,10 @@ theorem specHealthFactor_ok {sup : AList String SupplyInfo} {bor : AList String 
   obtain ⟨x, hx⟩ := hfOf_ok (cx := cx) (bors := bs) hc
   exact ⟨x, by unfold specHealthFactor; rw [hcs, hbs]; exact hx⟩
 
-theorem changeCollateral_reject {s : St} (hs : Good cx env s) (tok : String) (coll : Bool) (e : Err)
+/-- `change_collateral` as repaired: whatever makes it raise — closed market, token not supplied, token not admitted as
+    collateral, health factor below 1 after switching off, **or the health-factor evaluation itself raising** (missing price or
+    risk row, zero index) — the positions, wallet and log are as before.  No coherence hypothesis. -/
+theorem changeCollateral_reject (s : St) (tok : String) (coll : Bool) (e : Err)
     (he : (changeCollateral cx env tok coll s).1 = .error e) : (changeCollateral cx env tok coll s).2.core = s.core := by
   unfold changeCollateral guardOpen lookupSupply at he ⊢
   cases hopen : env.isOpen with
@@ -241,9 +244,15 @@ theorem changeCollateral_reject {s : St} (hs : Good cx env s) (tok : String) (co
       · simp only [hsame, if_true] at he
         cases he
       · simp only [hsame, Bool.false_eq_true, if_false] at he ⊢
-        have hpin := good_commitFlag (cx := cx) (env := env) (s := s) ⟨hs, rfl, rfl⟩ hg coll
-        generalize hs1 : (commitFlag tok { info with coll := coll } s).2 = s1 at hpin
-        have hrun1 : commitFlag tok { info with coll := coll } s = (.ok (), s1) := by rw [← hs1]; rfl
+        rcases hcc : checkCanCollateral env tok coll s with ⟨rc, sc⟩
+        have hsc : sc = s := by have := checkCanCollateral_snd env tok coll s; rw [hcc] at this; exact this
+        subst hsc
+        cases rc with
+        | error e' => rw [run_bind_err hcc]
+        | ok u =>
+        rw [run_bind_ok hcc] at he ⊢
+        generalize hs1 : (commitFlag tok { info with coll := coll } sc).2 = s1
+        have hrun1 : commitFlag tok { info with coll := coll } sc = (.ok (), s1) := by rw [← hs1]; rfl
         rw [run_bind_ok hrun1] at he ⊢
         cases coll with
         | true =>
@@ -251,27 +260,30 @@ theorem changeCollateral_reject {s : St} (hs : Good cx env s) (tok : String) (co
           cases he
         | false =>
           simp only [Bool.not_false, if_true] at he ⊢
-          obtain ⟨x, hx⟩ := specHealthFactor_ok (cx := cx) hpin.1.1.cv hpin.1.2.cv
-          obtain ⟨r1, _, _, _⟩ := reads_healthFactor (cx := cx) (env := env) s1 hpin.1
           obtain ⟨k1, _, _⟩ := healthFactor_keeps (cx := cx) (env := env) s1
           rcases hhf : healthFactor cx env s1 with ⟨r, s2⟩
-          rw [hhf] at r1 k1
-          dsimp only at r1 k1
-          rw [hx] at r1
-          subst r1
-          rw [run_bind_ok hhf] at he ⊢
-          by_cases hlow : x.ltR Gen.aaveHfThreshold = true
-          · simp only [hlow, if_true] at he ⊢
-            simp only [run_bind, commitFlag, run_modify, run_throw]
-            show (⟨AList.set s2.supplies tok info, s2.borrows, s2.wallet, s2.actions⟩ : Core) = s.core
-            have e1 : s2.supplies = AList.set s.supplies tok { info with coll := false } :=
-              (congrArg Frame.supplies k1).trans (by rw [← hs1]; rfl)
-            have e2 : s2.borrows = s.borrows := (congrArg Frame.borrows k1).trans (by rw [← hs1]; rfl)
-            have e3 : s2.wallet = s.wallet := (congrArg Frame.wallet k1).trans (by rw [← hs1]; rfl)
-            have e4 : s2.actions = s.actions := (congrArg Frame.actions k1).trans (by rw [← hs1]; rfl)
+          rw [hhf] at k1
+          dsimp only at k1
+          have e1 : s2.supplies = AList.set sc.supplies tok { info with coll := false } :=
+            (congrArg Frame.supplies k1).trans (by rw [← hs1]; rfl)
+          have e2 : s2.borrows = sc.borrows := (congrArg Frame.borrows k1).trans (by rw [← hs1]; rfl)
+          have e3 : s2.wallet = sc.wallet := (congrArg Frame.wallet k1).trans (by rw [← hs1]; rfl)
+          have e4 : s2.actions = sc.actions := (congrArg Frame.actions k1).trans (by rw [← hs1]; rfl)
+          have hback : (commitFlag tok info s2).2.core = sc.core := by
+            show (⟨AList.set s2.supplies tok info, s2.borrows, s2.wallet, s2.actions⟩ : Core) = sc.core
             rw [e1, e2, e3, e4, aset_aset, aset_of_get hg]
             rfl
-          · simp only [hlow, Bool.false_eq_true, if_false] at he
-            simp [run_bind, setUpdated] at he
+          cases r with
+          | error e' =>
+            rw [run_bind_err (run_onError_err hhf)]
+            exact hback
+          | ok x =>
+            rw [run_bind_ok (run_onError_ok hhf)] at he ⊢
+            by_cases hlow : x.ltR Gen.aaveHfThreshold = true
+            · simp only [hlow, if_true] at he ⊢
+              simp only [run_bind, run_throw]
+              exact hback
+            · simp only [hlow, Bool.false_eq_true, if_false] at he
+              simp [run_bind, setUpdated] at he
 
 end Demeter.Aave
